@@ -19,9 +19,50 @@ type Image map[string]FileState
 // FS is the shadow of the run directory, maintained from the file operations
 // that pass the os seam. The operations themselves execute against the real
 // directory; the shadow is refreshed from it after each one.
+type fsEntry struct {
+	name string
+	st   FileState
+}
+
+// fileTab is a tiny name -> state table. It is a slice, not a map: the
+// runtime's map functions report accesses to the race detector themselves, and
+// this table is touched by whichever task performs a file operation.
+type fileTab struct{ ents []fsEntry }
+
+//go:norace
+func (t *fileTab) get(name string) (FileState, bool) {
+	for i := range t.ents {
+		if t.ents[i].name == name {
+			return t.ents[i].st, true
+		}
+	}
+	return FileState{}, false
+}
+
+//go:norace
+func (t *fileTab) set(name string, st FileState) {
+	for i := range t.ents {
+		if t.ents[i].name == name {
+			t.ents[i].st = st
+			return
+		}
+	}
+	t.ents = append(t.ents, fsEntry{name, st})
+}
+
+//go:norace
+func (t *fileTab) del(name string) {
+	for i := range t.ents {
+		if t.ents[i].name == name {
+			t.ents = append(t.ents[:i], t.ents[i+1:]...)
+			return
+		}
+	}
+}
+
 type FS struct {
 	Dir     string
-	Files   map[string]FileState
+	Files   fileTab
 	dirty   []string
 	pending struct {
 		op   int
@@ -33,7 +74,7 @@ type FS struct {
 }
 
 func newFS(dir string) *FS {
-	fs := &FS{Dir: dir, Files: map[string]FileState{}}
+	fs := &FS{Dir: dir}
 	fs.Rescan()
 	return fs
 }
@@ -52,7 +93,7 @@ func FSOpName(op int) string {
 //
 //go:norace
 func (fs *FS) Rescan() {
-	fs.Files = map[string]FileState{}
+	fs.Files = fileTab{}
 	ents, err := os.ReadDir(fs.Dir)
 	if err != nil {
 		return
@@ -63,7 +104,7 @@ func (fs *FS) Rescan() {
 		}
 		b, err := os.ReadFile(filepath.Join(fs.Dir, e.Name()))
 		if err == nil {
-			fs.Files[e.Name()] = FileState{Data: b, Synced: len(b)}
+			fs.Files.set(e.Name(), FileState{Data: b, Synced: len(b)})
 		}
 	}
 }
@@ -108,15 +149,15 @@ func (fs *FS) settle() {
 	var carried FileState
 	var carry bool
 	if renFrom != "" {
-		carried, carry = fs.Files[renFrom]
+		carried, carry = fs.Files.get(renFrom)
 	}
 	for _, name := range fs.dirty {
 		b, err := os.ReadFile(filepath.Join(fs.Dir, name))
 		if err != nil {
-			delete(fs.Files, name)
+			fs.Files.del(name)
 			continue
 		}
-		old, ok := fs.Files[name]
+		old, ok := fs.Files.get(name)
 		st := FileState{Data: b}
 		if ok {
 			st.Synced = old.Synced
@@ -133,15 +174,15 @@ func (fs *FS) settle() {
 				st.Synced = len(b)
 			}
 		}
-		fs.Files[name] = st
+		fs.Files.set(name, st)
 	}
 	fs.dirty = fs.dirty[:0]
 	if fs.pending.set {
 		switch fs.pending.op {
 		case os.VerifOpSync:
-			if st, ok := fs.Files[fs.pending.name]; ok {
+			if st, ok := fs.Files.get(fs.pending.name); ok {
 				st.Synced = len(st.Data)
-				fs.Files[fs.pending.name] = st
+				fs.Files.set(fs.pending.name, st)
 			}
 		case os.VerifOpOpen:
 			// O_TRUNC: handled by the length comparison above; creation leaves Synced 0
@@ -154,9 +195,9 @@ func (fs *FS) settle() {
 //
 //go:norace
 func (fs *FS) Snapshot() Image {
-	im := make(Image, len(fs.Files))
-	for k, v := range fs.Files {
-		im[k] = v
+	im := make(Image, len(fs.Files.ents))
+	for _, e := range fs.Files.ents {
+		im[e.name] = e.st
 	}
 	return im
 }
